@@ -1,0 +1,27 @@
+//! Verification hooks (compiled only with `--cfg rumqtt_verif`).
+//! * re-exports of the crate-private framing layer,
+//! * an injectable in-memory transport: when a connector is installed on the current
+//!   thread, `network_connect` (v4 and v5) takes its socket from it instead of opening a
+//!   TCP connection. Everything after that (MQTT handshake, timeouts, session handling,
+//!   `select`) runs unmodified.
+
+use std::cell::RefCell;
+use std::io;
+
+pub use crate::framed::{AsyncReadWrite, Network};
+pub use crate::v5::verif_exports::Network as NetworkV5;
+
+pub type Connector = Box<dyn FnMut() -> io::Result<Box<dyn AsyncReadWrite>>>;
+
+thread_local! {
+    static CONNECTOR: RefCell<Option<Connector>> = RefCell::new(None);
+}
+
+/// Install (or remove, with `None`) the connector used by this thread's event loops.
+pub fn set_connector(connector: Option<Connector>) {
+    CONNECTOR.with(|c| *c.borrow_mut() = connector);
+}
+
+pub(crate) fn connect_hook() -> Option<io::Result<Box<dyn AsyncReadWrite>>> {
+    CONNECTOR.with(|c| c.borrow_mut().as_mut().map(|f| f()))
+}
